@@ -85,6 +85,7 @@ type vLink struct {
 	log     func(from int, idx int, now time.Duration, pkt []byte, f vFate)
 	logRx   func(to int, from int, idx int, now time.Duration)
 	stopped atomic.Bool
+	native  bool // real time: a write that races with the close cannot be told from one issued after it
 }
 
 type vEnd struct {
@@ -163,7 +164,7 @@ func (e *vEnd) Write(b []byte) (int, error) {
 	case <-e.closed:
 		// the endpoint wrote to a connection it had closed itself at an earlier (virtual) instant; a write
 		// racing with the close at the same instant just fails and is tolerated
-		if e.selfClose.Load() && time.Since(e.link.start).Nanoseconds() > e.closedAt.Load() {
+		if e.selfClose.Load() && !e.link.native && time.Since(e.link.start).Nanoseconds() > e.closedAt.Load() {
 			e.wrAfterCl.Add(1)
 		}
 		return 0, io.ErrClosedPipe
@@ -426,6 +427,7 @@ type vScenario struct {
 	hsRole   int // 0 client/server, 1 both clients, 2 out-of-band tokens
 	hsFaults []vHsFault
 	hsSilent int
+	readers  int // teardown: goroutines reading the same stream
 }
 
 type vStale struct {
@@ -553,6 +555,10 @@ func vGenScenario(mode string, seed, idx int) *vScenario {
 	if mode == "handshake" {
 		vGenHandshake(sc)
 	}
+	sc.readers = 1
+	if mode == "teardown" {
+		sc.readers = 1 + (&vrand{s: uint64(seed)*7 + uint64(idx)*13 + 3}).n(4) // 1..4, its own stream: earlier choices stay as they were
+	}
 	return sc
 }
 
@@ -574,10 +580,10 @@ func (sc *vScenario) header() string {
 	if len(hf) == 0 {
 		hf = []string{"none"}
 	}
-	return fmt.Sprintf("ilA=%d ilB=%d zcA=%d zcB=%d mtu=%d rcvbuf=%d block=%d tsnA=%d tsnB=%d streams=%s nmsg=%d drop=%d dup=%d delay=%d heal=%d blackout=%d-%d pause=%d both=%d role=%d hsfaults=%s silent=%d",
+	return fmt.Sprintf("ilA=%d ilB=%d zcA=%d zcB=%d mtu=%d rcvbuf=%d block=%d tsnA=%d tsnB=%d streams=%s nmsg=%d drop=%d dup=%d delay=%d heal=%d blackout=%d-%d pause=%d both=%d role=%d hsfaults=%s silent=%d readers=%d",
 		b(sc.il[0]), b(sc.il[1]), b(sc.zc[0]), b(sc.zc[1]), sc.mtu, sc.rcvBuf, b(sc.blockWrite), sc.tsn[0], sc.tsn[1],
 		strings.Join(ss, ","), len(sc.msgs), sc.dropPct, sc.dupPct, sc.maxDelayMs, sc.healMs, sc.blackoutFromMs, sc.blackoutToMs, sc.readerPauseMs, b(sc.bothClients),
-		sc.hsRole, strings.Join(hf, ","), sc.hsSilent)
+		sc.hsRole, strings.Join(hf, ","), sc.hsSilent, sc.readers)
 }
 
 // ---- running one scenario -------------------------------------------------------------------
@@ -595,6 +601,56 @@ type vRun struct {
 	trigCh  chan struct{}
 	nEvents int
 	wireLines int
+	// teardown / storm extensions
+	native  bool            // running outside a synctest bubble (race-detector runs): real time, no synctest.Wait
+	ctx0    context.Context // side 0 connects with createClientWithContext(ctx0, …)
+	holdCA  bool            // keep the first COOKIE-ACK back (teardown ctxcancel): it is handed over together with the cancel
+	heldCA  []byte
+	heldIdx int
+	heldCh  chan struct{}
+	readers int // readers per accepted stream
+	// teardown: one accepted stream per side is NOT read while the run lasts: a long read deadline is armed on it, the reader
+	// comes back only after the teardown AND after that deadline has expired (idleGo), sets a new deadline and reads
+	idleSide [2]bool
+	idleGo   chan struct{}
+	idleWG   sync.WaitGroup
+}
+
+// assoc / setAssoc: the association of a side is stored by the goroutine that runs the constructor and read by the
+// goroutine that injects the teardown; outside the bubble the two really run in parallel
+func (r *vRun) assoc(side int) *Association {
+	r.mu.Lock()
+	defer r.mu.Unlock()
+	return r.as[side]
+}
+
+func (r *vRun) setAssoc(side int, a *Association) {
+	r.mu.Lock()
+	r.as[side] = a
+	r.mu.Unlock()
+}
+
+func (r *vRun) assocStreams(side int) map[uint16]*Stream {
+	a := r.assoc(side)
+	out := map[uint16]*Stream{}
+	if a == nil {
+		return out
+	}
+	a.lock.RLock()
+	for k, v := range a.streams {
+		out[k] = v
+	}
+	a.lock.RUnlock()
+	return out
+}
+
+// settle: let every goroutine of the run reach its next blocking point
+func (r *vRun) settle() {
+	if r.native {
+		time.Sleep(2 * time.Millisecond)
+		return
+	}
+	synctest.Wait()
 }
 
 const vMaxWireLines = 40000 // per scenario: a livelocked run must not produce an unbounded log
@@ -637,6 +693,8 @@ func vErrClass(err error) string {
 		return "deadline"
 	case errors.Is(err, ErrShutdownNonEstablished):
 		return "shutdown-nonestablished"
+	case strings.Contains(err.Error(), "before the shutdown sequence completed"): // ErrShutdownIncomplete (by text: the harness must also build against a tree without it)
+		return "shutdown-incomplete"
 	case errors.Is(err, ErrAssociationClosedBeforeConn):
 		return "closed-before-conn"
 	case errors.Is(err, ErrHandshakeInitAck), errors.Is(err, ErrHandshakeCookieEcho):
@@ -686,21 +744,23 @@ func (r *vRun) connect(timeout time.Duration) bool {
 		go func() {
 			var a *Association
 			var err error
-			if side == 0 || r.sc.bothClients {
+			if side == 0 && r.ctx0 != nil {
+				a, err = createClientWithContext(r.ctx0, r.config(side))
+			} else if side == 0 || r.sc.bothClients {
 				a, err = Client(r.config(side))
 			} else {
 				a, err = Server(r.config(side))
 			}
 			chs[side] <- res{a, err}
 		}()
-		synctest.Wait() // the constructor has drawn its numbers and is parked (or done)
+		r.settle() // the constructor has drawn its numbers and is parked (or done)
 	}
 	ok := true
 	deadline := time.After(timeout)
 	for side := 0; side < 2; side++ {
 		select {
 		case x := <-chs[side]:
-			r.as[side] = x.a
+			r.setAssoc(side, x.a)
 			r.logf("e2e connect %d -> %s %d", side, vErrClass(x.err), time.Since(r.link.start).Milliseconds())
 			if x.err != nil {
 				ok = false
@@ -711,7 +771,7 @@ func (r *vRun) connect(timeout time.Duration) bool {
 			// unblock the constructor so the goroutine can finish
 			r.link.ends[side].fail()
 			x := <-chs[side]
-			r.as[side] = x.a
+			r.setAssoc(side, x.a)
 		}
 	}
 	return ok
@@ -736,6 +796,11 @@ func (r *vRun) fate() func(int, int, []byte, time.Duration) vFate {
 	sc := r.sc
 	fr := &vrand{s: uint64(sc.seed)*31337 + uint64(sc.idx)*131 + 5}
 	return func(from, idx int, pkt []byte, now time.Duration) vFate {
+		if r.holdCA && from == 1 && r.heldCA == nil && strings.HasSuffix(vPacketSummary(pkt), " COOKIEACK") {
+			r.heldCA, r.heldIdx = append([]byte(nil), pkt...), idx
+			close(r.heldCh)
+			return vFate{drop: true}
+		}
 		ms := int(now / time.Millisecond)
 		if sc.blackoutToMs > 0 && ms >= sc.blackoutFromMs && ms < sc.blackoutToMs {
 			return vFate{drop: true}
@@ -793,21 +858,34 @@ func (r *vRun) wireLog() func(int, int, time.Duration, []byte, vFate) {
 // teardown closes everything and reports goroutines of package sctp that are still alive.
 func (r *vRun) teardown() {
 	for side := 0; side < 2; side++ {
-		if a := r.as[side]; a != nil {
+		if a := r.assoc(side); a != nil {
 			_ = a.Close()
 		}
 		r.link.ends[side].fail()
 	}
 	r.link.stopped.Store(true)
 	r.link.wg.Wait()
-	synctest.Wait()
-	time.Sleep(time.Second)
-	synctest.Wait()
+	r.settle()
+	if r.native {
+		time.Sleep(300 * time.Millisecond)
+	} else {
+		time.Sleep(time.Second)
+	}
+	r.settle()
 	leaks := vLeakedGoroutines()
 	r.logf("e2e fin -> leaks=%d wrAfterClose=%d %s", len(leaks), r.link.ends[0].wrAfterCl.Load()+r.link.ends[1].wrAfterCl.Load(), strings.Join(leaks, ","))
 	r.mu.Lock()
 	r.l.w.Flush()
 	r.mu.Unlock()
+	// a read-deadline helper goroutine only ends at its deadline (known finding): let it, so that the bubble can end.
+	// Any other survivor makes the bubble panic, which is the intention.
+	for _, g := range leaks {
+		if strings.Contains(g, "SetReadDeadline") && !r.native {
+			time.Sleep(3 * time.Hour)
+			synctest.Wait()
+			break
+		}
+	}
 }
 
 func vLeakedGoroutines() []string {
@@ -815,7 +893,7 @@ func vLeakedGoroutines() []string {
 	n := runtime.Stack(buf, true)
 	var out []string
 	for _, g := range strings.Split(string(buf[:n]), "\n\n") {
-		if strings.Contains(g, "TestVerif") || strings.Contains(g, "vRun") {
+		if strings.Contains(g, "TestVerif") || strings.Contains(g, "vRun") || strings.Contains(g, "vWatchdog") {
 			continue
 		}
 		for _, line := range strings.Split(g, "\n") {
@@ -837,12 +915,13 @@ func vLeakedGoroutines() []string {
 // buffer that is too small and arms read deadlines that expire while no data is available.
 func (r *vRun) reader(side int, s *Stream, wg *sync.WaitGroup, bufSize int) {
 	defer wg.Done()
-	api := r.sc.mode == "api" || (r.sc.mode == "teardown" && r.sc.idx%3 == 0)
+	api := r.sc.mode == "api" || (r.sc.mode == "teardown" && r.sc.idx%3 == 0) || r.sc.mode == "storm"
 	ar := &vrand{s: uint64(r.sc.seed)*17 + uint64(r.sc.idx)*5 + uint64(s.StreamIdentifier())}
 	if api {
 		bufSize = 1 + ar.n(64)
 	}
 	buf := make([]byte, bufSize)
+	ndl := 0
 	for {
 		if api && ar.chance(40) {
 			_ = s.SetReadDeadline(time.Now().Add(time.Duration(ar.pick(0, 1, 1000, 200000, 5000000)) * time.Microsecond))
@@ -858,7 +937,19 @@ func (r *vRun) reader(side int, s *Stream, wg *sync.WaitGroup, bufSize int) {
 				}
 				continue
 			}
-			if api && errors.Is(err, os.ErrDeadlineExceeded) {
+			// the stream's own sentinel: after a local Abort() the close error is the TRANSPORT's deadline error (Abort
+			// forces the read loop out with SetReadDeadline(now)), which also is an os.ErrDeadlineExceeded
+			if api && errors.Is(err, ErrReadDeadlineExceeded) {
+				ndl++
+				if ndl > 5000 {
+					// an application that keeps polling with deadlines on a stream nobody will ever write to again
+					s.lock.RLock()
+					re, rc := s.readErr, s.readTimeoutCancel != nil
+					s.lock.RUnlock()
+					_, reg := r.assocStreams(side)[s.StreamIdentifier()]
+					r.logf("e2e readerspin %d %d -> readErr=%v cancel=%v registered=%v", side, s.StreamIdentifier(), re, rc, reg)
+					return
+				}
 				r.logf("e2e rerr %d %d -> deadline", side, s.StreamIdentifier())
 				// the application does something else for a while before it comes back to read again
 				time.Sleep(time.Duration(ar.pick(0, 1000, 50000, 400000, 2000000)) * time.Microsecond)
@@ -871,6 +962,53 @@ func (r *vRun) reader(side int, s *Stream, wg *sync.WaitGroup, bufSize int) {
 		r.logf("e2e r %d %d %d %d %d", side, s.StreamIdentifier(), uint32(ppi), n, vHash(buf[:n]))
 		if api && ar.chance(30) {
 			buf = make([]byte, 1+ar.n(256)) // shrink again
+		}
+	}
+}
+
+// vCCIdleReader: a read deadline is armed while NO read is blocked; the association goes down; the deadline expires only
+// after that; then the application sets a new deadline (or none) and reads: it must get the data that had arrived and then,
+// promptly, the TERMINAL error of the stream (close error / EOF / the peer's abort cause) - an expiry that comes late must
+// not replace it.
+func (r *vRun) vCCIdleReader(side int, s *Stream, bufSize int) {
+	defer r.idleWG.Done()
+	sid := s.StreamIdentifier()
+	dl := time.Now().Add(time.Hour)
+	_ = s.SetReadDeadline(dl)
+	r.logf("e2e idlearm %d %d", side, sid)
+	<-r.idleGo
+	if d := time.Until(dl); d > 0 {
+		time.Sleep(d + time.Second) // the helper goroutine of the deadline has fired by now
+	}
+	ir := &vrand{s: uint64(r.sc.seed)*271 + uint64(r.sc.idx)*29 + uint64(side)}
+	buf := make([]byte, bufSize)
+	t0 := time.Now()
+	for k := 0; ; k++ {
+		if ir.chance(50) {
+			_ = s.SetReadDeadline(time.Time{})
+		} else {
+			_ = s.SetReadDeadline(time.Now().Add(5 * time.Second))
+		}
+		n, ppi, err := s.ReadSCTP(buf)
+		switch {
+		case err == nil:
+			r.logf("e2e r %d %d %d %d %d", side, sid, uint32(ppi), n, vHash(buf[:n]))
+		case errors.Is(err, io.ErrShortBuffer):
+			buf = make([]byte, len(buf)*2+1)
+		case errors.Is(err, ErrReadDeadlineExceeded) && k < 3:
+			// the old deadline's expiry may still be pending as the stream's (transient) error once; after that a
+			// deadline error means the terminal error is gone
+			r.logf("e2e rerr %d %d -> deadline", side, sid)
+		default:
+			cls := vErrClass(err)
+			if errors.Is(err, ErrReadDeadlineExceeded) {
+				// the stream's own sentinel, still there after three fresh deadlines: the terminal error is gone. (After a
+				// local Abort() the terminal error itself is the TRANSPORT's deadline error, class "deadline": that is fine.)
+				cls = "read-deadline-exceeded"
+			}
+			r.logf("e2e idleread %d %d -> %s %d", side, sid, cls, time.Since(t0).Milliseconds())
+			r.logf("e2e rerr %d %d -> %s", side, sid, vErrClass(err))
+			return
 		}
 	}
 }
@@ -892,12 +1030,32 @@ func (r *vRun) acceptor(side int, wg *sync.WaitGroup, bufSize int) {
 		if r.sc.readerPauseMs > 0 {
 			time.Sleep(time.Duration(r.sc.readerPauseMs) * time.Millisecond)
 		}
-		wg.Add(1)
-		go r.reader(side, s, wg, bufSize)
+		r.mu.Lock()
+		idle := r.idleSide[side]
+		r.idleSide[side] = false
+		r.mu.Unlock()
+		if idle {
+			r.idleWG.Add(1)
+			go r.vCCIdleReader(side, s, bufSize)
+			continue
+		}
+		nr := 1
+		if r.readers > 1 {
+			nr = r.readers
+		}
+		for k := 0; k < nr; k++ {
+			wg.Add(1)
+			go r.reader(side, s, wg, bufSize)
+		}
 	}
 }
 
 func (r *vRun) logEnd() {
+	if os.Getenv("VERIF_DEBUG") == "2" {
+		buf := make([]byte, 1<<20)
+		n := runtime.Stack(buf, true)
+		fmt.Fprintf(os.Stderr, "---- goroutines at logEnd ----\n%s\n", buf[:n])
+	}
 	for side := 0; side < 2; side++ {
 		a := r.as[side]
 		if a == nil {
@@ -1048,7 +1206,7 @@ func (r *vRun) waitDrain() {
 	}
 	// let delayed acks / last reads settle
 	time.Sleep(2 * time.Second)
-	synctest.Wait()
+	r.settle()
 }
 
 // graceful shutdown while data may still be queued / in flight, one-sided or crossed.
@@ -1090,11 +1248,43 @@ func (r *vRun) runShutdown(streams []*Stream) {
 	r.logEnd()
 }
 
+// vWatchdog runs OUTSIDE the bubble on the real clock: goroutines waiting for a sync.Mutex are not "durably blocked" for
+// synctest, so a deadlock that involves a mutex neither panics nor lets virtual time advance — the scenario just hangs.
+func vWatchdog(sc *vScenario, l *vlog, limit time.Duration) (stop func()) {
+	done := make(chan struct{})
+	go func() {
+		select {
+		case <-done:
+		case <-time.After(limit):
+			buf := make([]byte, 1<<20)
+			n := runtime.Stack(buf, true)
+			var waiting []string
+			for _, g := range strings.Split(string(buf[:n]), "\n\n") {
+				if strings.Contains(g, "pion/sctp.(") && (strings.Contains(g, "sync.Mutex.Lock") || strings.Contains(g, "sync.RWMutex") || strings.Contains(g, "[select") || strings.Contains(g, "[chan ")) {
+					lines := strings.Split(g, "\n")
+					if len(lines) > 12 {
+						lines = lines[:12]
+					}
+					waiting = append(waiting, strings.Join(lines, "\n"))
+				}
+			}
+			fmt.Fprintf(os.Stderr, "panic: deadlock: scenario `e2e new %s %d %d` did not finish within %s of real time; goroutines of the package still waiting:\n%s\n",
+				sc.mode, sc.seed, sc.idx, limit, strings.Join(waiting, "\n\n"))
+			if os.Getenv("VERIF_DEBUG") != "" {
+				fmt.Fprintf(os.Stderr, "---- all goroutines ----\n%s\n", buf[:n])
+			}
+			os.Exit(2)
+		}
+	}()
+	return func() { close(done) }
+}
+
 func vRunScenario(t *testing.T, l *vlog, sc *vScenario) {
 	old := globalMathRandomGenerator
 	defer func() { globalMathRandomGenerator = old }()
+	defer vWatchdog(sc, l, time.Duration(vEnvInt("VERIF_WATCHDOG_S", 60))*time.Second)()
 	synctest.Test(t, func(t *testing.T) {
-		run := &vRun{t: t, l: l, sc: sc}
+		run := &vRun{t: t, l: l, sc: sc, readers: sc.readers, heldCh: make(chan struct{}), idleGo: make(chan struct{})}
 		// Uint32 call order in the constructors: myVerificationTag then TSN for each association;
 		// both associations draw from the same source, so give every early draw a chosen value.
 		globalMathRandomGenerator = &vRandGen{r: &vrand{s: uint64(sc.seed) + 99}, tsns: nil}
@@ -1119,6 +1309,8 @@ func vRunScenario(t *testing.T, l *vlog, sc *vScenario) {
 			run.runReset()
 		case "teardown":
 			run.runTeardown()
+		case "storm":
+			run.runStorm()
 		default:
 			run.runTransfer()
 		}
